@@ -10,6 +10,8 @@ pub mod strat;
 pub mod byods;
 pub mod features;
 pub mod runmacro;
+#[cfg(feature = "generated")]
+pub mod generated;
 
 pub fn all() -> Vec<ProgramDef> {
    let mut v = vec![];
@@ -19,5 +21,7 @@ pub fn all() -> Vec<ProgramDef> {
    v.extend(byods::all());
    v.extend(features::all());
    v.extend(runmacro::all());
+   #[cfg(feature = "generated")]
+   v.extend(generated::all());
    v
 }
